@@ -146,6 +146,10 @@ def bytes_decode(interp, b, encoding="utf-8", errors="strict"):
     n = chars(t)
     ln = ops.rope_len(b.rope)
     ctx.assume(z3.And(n <= zi(ln), 4 * n >= zi(ln), n >= 0))
+    if ctx.valid(n == zi(ln)):
+        # known to have as many characters as octets (e.g. an AsciiStrLen input read back): use the octet count itself, which
+        # keeps later length arithmetic free of the uninterpreted count
+        return StrV(BytesV(list(b.rope), "bytes"), ln if isinstance(ln, int) else ops.mk(zi(ln), 0, None, 0))
     return StrV(BytesV(list(b.rope), "bytes"), ops.mk(n, 0, None, 0))
 
 
